@@ -50,6 +50,11 @@ def _generate_model_code(
     # Model components
     variables = model.get_initial_conditions()
     parameters = model.get_parameter_values()
+    # Parameters defined by an initial assignment are constants as well
+    all_parameter_values = model._create_cache().all_parameter_values  # noqa: SLF001
+    for name in model.get_parameter_names():
+        if name not in parameters:
+            parameters[name] = all_parameter_values[name]
 
     if imports is not None:
         source.extend(imports)
